@@ -237,9 +237,7 @@ def pDoIf (args : List String) : Option DoIfCase := do
 def encRes (valid res : Bool) : String := if !valid then "err" else ofBool res
 
 def relaxations : List (String × Relax) :=
-  [("lower", ⟨true, false, false⟩), ("container", ⟨false, true, false⟩), ("emptycont", ⟨false, false, true⟩),
-   ("lower+container", ⟨true, true, false⟩), ("lower+emptycont", ⟨true, false, true⟩),
-   ("container+emptycont", ⟨false, true, true⟩), ("lower+container+emptycont", ⟨true, true, true⟩)]
+  [("lower", ⟨true, false⟩), ("container", ⟨false, true⟩), ("lower+container", ⟨true, true⟩)]
 
 def explain (c : DoIfCase) (res : Bool) : String :=
   if spec c.o c.now c.ev c.n == res then "spec" else
